@@ -1,6 +1,7 @@
 CONSTANTS
-  Alphabet = {16, 198, 170, 200, 232, 192, 129, 236, 212}
+  Alphabet = {16, 42, 198, 170, 200, 192, 129, 212}
   MaxLen = 5
+  Distinct = TRUE
   Arbs = {49}
 INIT Init
 NEXT Next
